@@ -99,6 +99,19 @@ fn compare(how: &str, path: &str, want: &BTreeMap<String, BTreeSet<u64>>, got: &
 struct Quiet;
 impl Module for Quiet {}
 
+/// reads its own configured properties while the node is being constructed (e.g. to choose processing elements)
+struct Reader {
+    keys: Vec<String>,
+}
+impl Module for Reader {
+    fn stack(&self, stack: des::net::processing::ProcessingStack) -> des::net::processing::ProcessingStack {
+        for k in &self.keys {
+            let _ = current().prop::<u64>(k).map(|p| p.get());
+        }
+        stack
+    }
+}
+
 fn value_u64(v: Option<serde_yml::Value>) -> Option<u64> {
     v.and_then(|v| v.as_u64())
 }
@@ -138,7 +151,7 @@ pub fn execute(case: &Case) -> (Vec<Finding>, u64) {
         }
     }
     // (2) through a simulation builder, configuration included before and after the nodes exist
-    for before in [true, false] {
+    for (before, readers) in [(true, false), (false, false), (true, true)] {
         let r = vcommon::catch(|| {
             let mut sim = Sim::new(());
             if before {
@@ -150,7 +163,11 @@ pub fn execute(case: &Case) -> (Vec<Finding>, u64) {
                 for d in 1..=segs.len() {
                     let p = segs[..d].join(".");
                     if created.insert(p.clone()) {
-                        sim.node(p.as_str(), Quiet);
+                        if readers {
+                            sim.node(p.as_str(), Reader { keys: expected(&case.entries, &p).into_keys().collect() });
+                        } else {
+                            sim.node(p.as_str(), Quiet);
+                        }
                     }
                 }
             }
@@ -167,7 +184,11 @@ pub fn execute(case: &Case) -> (Vec<Finding>, u64) {
             drop(sim);
             out
         });
-        let how = if before { "include_cfg before node creation" } else { "include_cfg after node creation" };
+        let how = match (before, readers) {
+            (true, false) => "include_cfg before node creation",
+            (true, true) => "include_cfg before node creation, the node reads its properties while it is constructed",
+            _ => "include_cfg after node creation",
+        };
         match r {
             Err(p) => {
                 f.push(("panicked", format!("{how}: building the simulation panicked: {p}; entries {:?}, paths {:?}", case.entries, case.paths)));
